@@ -211,6 +211,10 @@ namespace bxdecay0 {
         if (_energy_min_ >= _energy_max_) {
           throw std::logic_error("bxdecay0::decay0_generator::initialize: Invalid energy range !");
         }
+        if (_energy_max_ <= 0.0) {
+          // No energy can be sampled below a non-positive upper bound
+          throw std::logic_error("bxdecay0::decay0_generator::initialize: Invalid energy range (upper bound is not positive) !");
+        }
       }
     }
     _init_(prng_);
